@@ -109,7 +109,8 @@ class PythonParserGenerator(IndentPrintMixin, NodeWalker):
             if isinstance(p, int | float):
                 return str(p)
             else:
-                return repr(p.split('::')[0])
+                # NOTE: the whole Name::Base::... path, as the model passes it
+                return repr(p)
 
         self.reset_counters()
         params = kwparams = ''
